@@ -22,6 +22,7 @@ SPECS = {
     "sbc_rule": ("gen_sbc_rule", ["matid/clustering/sbc.py", "matid/core/periodicfinder.py"], ["MatidGen/SbcRule.lean"]),
     "classifier_rule": ("gen_classifier_rule", ["matid/classification/classifier.py"], ["MatidGen/ClassifierRule.lean"]),
     "proto_rule": ("gen_proto_rule", ["matid/core/periodicfinder.py"], ["MatidGen/ProtoRule.lean"]),
+    "region_rule": ("gen_region_rule", ["matid/core/periodicfinder.py"], ["MatidGen/RegionRule.lean"]),
     "dim_rule": ("gen_dim_rule", ["matid/geometry/geometry.py", "matid/clustering/sbc.py"], ["MatidGen/DimRule.lean"]),
 }
 
